@@ -40,6 +40,9 @@ def render(h, variant):
             body.append(('    def init%d(self):' % i, None))
             for a in sorted(h['selfs'][i - 1]):
                 body.append(('        self.%s = %d' % (nm[a], i), ('inst', a)))
+            if variant.get('bareann'):
+                # a bare annotation assigns nothing: no instance gets the attribute from it
+                body.append(('        self.%s: int' % nm['q'], None))
         if not body:
             body.append(('    pass', None))
         return lines, body
